@@ -308,6 +308,27 @@ def check(run: Run) -> None:
                 n += 1
         run.sites(n, 4, "removal functions")
 
+    with run.obligation("C05.h", "K7", "a dictionary key erased and written again within ONE cycle: the removal clears the slot's modified bit while the child keeps "
+                        "its own modification time, so the child's next write is 'not new' and never re-marks the parent; the revive branch of insert_key "
+                        "must therefore re-mark the slot or reset the child's tracking (KNOWN FINDING F-C05-1 on the current tree)"):
+        n = 0
+        clears = all(any(R.Canon()(c.fn) == "modified_.reset" for c in R.calls(R.fn(run, SLOT, nm, cls="TSDSlotStorage"), "reset"))
+                     for nm in ("remove_key", "remove_slot"))
+        for nm in ("insert_key", "insert_key_move"):
+            fa = R.fn(run, SLOT, nm, cls="TSDSlotStorage")
+            cn = R.aliases_of(fa)
+            rev = [s0 for s0 in fa.body.walk() if isinstance(s0, C.If) and cn(s0.cond).replace(" ", "") == "slot_removed(result.slot)"]
+            run.sites(len(rev), 1, f"{nm} revive branch")
+            n += 1
+            run.count(1, f"C05.h.{nm}")
+            calls = [cn(c.fn) for c in R.calls(rev[0].then)]
+            remarks = any(c == "modified_.set" or re.search(r"reset_tracking|invalidate|clear_modified|reset_last_modified", c) for c in calls)
+            if clears and not remarks:
+                run.finding("C05.h", f"TSDSlotStorage::{nm}:revived-slot-not-remarked", f"TSDSlotStorage::{nm} revives a slot removed earlier in the same cycle "
+                            f"(calls {calls}) without re-marking it modified or resetting the child's modification time: set(k,v1); erase(k); set(k,v2) in one "
+                            "cycle changes the value while added/removed/modified do not report it", loc=fa.loc(rev[0]))
+        run.sites(n, 2, "revive branches")
+
 
 VARIANTS = [
     {"id": "b-touch-does-not-roll-window", "expect": "C05.b", "edits": [{"file": SLOT, "find": "            [[nodiscard]] bool touch(DateTime modified_time)\n            {\n                validate_mutation_time(modified_time);\n                prepare_delta(modified_time);\n                return tracking_.last_modified_time != modified_time;", "replace": "            [[nodiscard]] bool touch(DateTime modified_time)\n            {\n                validate_mutation_time(modified_time);\n                ensure_delta_capacity();\n                return tracking_.last_modified_time != modified_time;"}]},
